@@ -387,10 +387,11 @@ func (p *peer) finishMut(h *histState, idx int, al *attemptLog, pd pending, back
 func (p *peer) send(al *attemptLog, srv int, to netip.AddrPort, pkt ntp.Packet) {
 	var b []byte
 	ntp.EncodePacket(&b, &pkt)
-	if p.h.script.scion {
-		b = wrapSCION(al.reqRaw, b, false)
-	}
 	t := realNow()
+	if p.h.script.scion {
+		// the receive-timestamp option, when present, says "received now"
+		b = wrapSCION(al.reqRaw, b, false, p.h.script.tsopt, t)
+	}
 	p.conns[srv].WriteToUDPAddrPort(b, to)
 	al.dgrams = append(al.dgrams, sentDgram{pkt: pkt, sendReal: t})
 	p.h.replies = append(p.h.replies, sentReply{pkt: pkt, req: al.req})
@@ -401,7 +402,7 @@ func (p *peer) send(al *attemptLog, srv int, to netip.AddrPort, pkt ntp.Packet) 
 func (p *peer) sendRaw(al *attemptLog, srv int, to netip.AddrPort, b []byte, foreign bool) {
 	c := p.conns[srv]
 	if p.h.script.scion {
-		b = wrapSCION(al.reqRaw, b, foreign)
+		b = wrapSCION(al.reqRaw, b, foreign, 0, time.Time{})
 	} else if foreign {
 		c = p.foreign
 	}
